@@ -105,6 +105,10 @@ def CDb.store (c : CDb) (i : Nat) (x : Smp) : CDb :=
     { c with numStale := c.numStale + (if !s.lastStale && isStale then 1 else 0) - (if s.lastStale && !isStale then 1 else 0),
              chunks := c.chunks + created }
 
+/-- `true`: /repo contains "fix: tsdb: head chunks gauge over-counts when a sample is rejected at commit
+    time" (the flag is reset per sample); `false` reproduces finding C52-F1. -/
+def repoFixedChunkCreated : Bool := true
+
 def CDb.commit (c : CDb) : CDb × Out :=
   match c.db.app with
   | none => (c, .err .noapp)
@@ -117,7 +121,7 @@ def CDb.commit (c : CDb) : CDb × Out :=
     let (_, c, _) := a.batch.foldl (fun (acc : Db × CDb × Bool) (p : Nat × Smp) =>
       let (d, c, cc) := acc
       match appendable (d.getSeries p.1).phys p.2.t p.2.v a.headMaxt a.minValid d.cfg.oooWin with
-      | .error _ => (d, { c with chunks := c.chunks + (if cc then 1 else 0) }, cc)
+      | .error _ => (d, { c with chunks := c.chunks + (if cc && !repoFixedChunkCreated then 1 else 0) }, cc)
       | .ok _ =>
         let (s', stored) := commitOne (d.getSeries p.1) p.2 a d.cfg.oooWin
         if stored then
